@@ -706,6 +706,13 @@ Definition has_nular (n:string) : bool := existsb (String.eqb n) reg_nular.
 (* ------------------------------------------------------------------ instructions (src/opcodes/*.h) *)
 Definition no_value_diag (c:context) (strong weak:Z*Z) : Z*Z := if c_weak c then weak else strong.
 
+Fixpoint pop_args (k:nat) (c:context) (acc:list value) : (list value * context * bool) :=
+  match k with
+  | O => (acc, c, true)
+  | S k' => match pop_value c with
+            | Some (v, c') => pop_args k' c' (v :: acc)
+            | None => (repeat VNil (S k') ++ acc, c, false) end end.
+
 Definition exec_instr (i:instr) (r:rt) (c:context) : res (rt * context) :=
   match i with
   | IPush v => Ok (r, push_value c v)
@@ -741,13 +748,7 @@ Definition exec_instr (i:instr) (r:rt) (c:context) : res (rt * context) :=
                let r1 := match v with VNil => logmsg r d_AssigningNilValue | _ => r end in
                Ok (r1, set_top_var c1 n v) end
   | IMakeArray n =>     (* make_array.h:28: pops right to left, stops at the first missing value *)
-      let fix go (k:nat) (c:context) (acc:list value) : (list value * context * bool) :=
-        match k with
-        | O => (acc, c, true)
-        | S k' => match pop_value c with
-                  | Some (v, c') => go k' c' (v :: acc)
-                  | None => (repeat VNil (S k') ++ acc, c, false) end end in
-      let '(vals, c1, ok) := go n c [] in
+      let '(vals, c1, ok) := pop_args n c [] in
       let r1 := if ok then r else logmsg r d_StackCorruptionMissingValues in
       Ok (r1, push_value c1 (VArr vals))
   | INular n =>
